@@ -455,21 +455,34 @@ func genC14restart(rng *rand.Rand, p *sim.Plan, order []string) *sim.Plan {
 	p.Broker.MaxInflight = 1
 	p.Broker.SessionExpiryS = sim.Int(100000)
 	p.Clients = []sim.ClientSpec{{ID: "keeper", Ver: pick(rng, []byte{4, 5})}, {ID: "pub", Ver: pick(rng, []byte{4, 5})}}
-	keep := sim.Op{K: "connect", C: 0, Clean: false}
+	keep := sim.Op{K: "connect", C: 0, Clean: false, Ack: "never"}
 	if p.Clients[0].Ver == 5 {
 		keep.ExpiryS = sim.U32(90000)
 	}
+	// before the restart the keeper is sent a message or two that it never acknowledges (in-flight entries in the
+	// store); after the restart they have outlived the in-flight expiry when the queue overflows
+	pre := sim.Phase{Ops: []sim.Op{{K: "connect", C: 1, Clean: true}}}
+	for k := 0; k < rng.IntN(3); k++ {
+		pre.Ops = append(pre.Ops, sim.Op{K: "publish", C: 1, Topic: "k/x", QoS: 1, Payload: fmt.Sprintf("i%d", k)})
+	}
 	p.Phases = append(p.Phases,
 		sim.Phase{Ops: []sim.Op{keep, {K: "subscribe", C: 0, Subs: []mqttc.Sub{{Filter: "k/#", QoS: 1}}}}},
-		sim.Phase{Ops: []sim.Op{{K: "cut", C: 0}}},
+		pre,
+		sim.Phase{Ops: []sim.Op{{K: "cut", C: 0}, {K: "cut", C: 1}}},
 		sim.Phase{Ops: []sim.Op{{K: "api_stop", C: -1}}},
-		sim.Phase{Ops: []sim.Op{{K: "api_start", C: -1}}})
+		sim.Phase{Ops: []sim.Op{{K: "api_start", C: -1}}, Advance: sim.Sec(pick(rng, []int{0, 1, 45}))})
 	var pp sim.Phase
 	pp.Ops = append(pp.Ops, sim.Op{K: "connect", C: 1, Clean: true})
 	for k := 0; k < p.Broker.MaxQueued+1+rng.IntN(4); k++ {
 		pp.Ops = append(pp.Ops, sim.Op{K: "publish", C: 1, Topic: "k/x", QoS: 1, Payload: fmt.Sprintf("r%d", k)})
 	}
 	p.Phases = append(p.Phases, pp)
+	// the keeper comes back and acknowledges: what it is not given must have been reported dropped
+	back := sim.Op{K: "connect", C: 0, Clean: false}
+	if p.Clients[0].Ver == 5 {
+		back.ExpiryS = sim.U32(90000)
+	}
+	p.Phases = append(p.Phases, sim.Phase{Ops: []sim.Op{back}})
 	return p
 }
 
@@ -502,6 +515,47 @@ func oracleC14restart(p *sim.Plan, out *sim.Outcome) []sim.Violation {
 		}
 	}
 	out.Probes["c14_restored_session_drops"] += drops
+	// conservation across the restart: every message accepted for the keeper's session is given to it (before the
+	// restart, or after it came back) or was reported through OnMsgDropped
+	droppedPl := map[string]bool{}
+	for _, r := range out.H.Recs {
+		if r.Kind == "hook" && r.Note == "dropped" {
+			if d, ok := r.Val.(sim.DropInfo); ok && d.Client == "keeper" {
+				droppedPl[d.Payload] = true
+			}
+		}
+	}
+	resumed, resumeStep := false, 0
+	gotBefore, gotAfter := map[string]bool{}, map[string]bool{}
+	for _, r := range out.H.Recs {
+		if r.Kind == "rx" && r.C == 0 && r.Pkt.Type == mqttc.CONNACK && r.Pkt.SessionPresent {
+			resumed, resumeStep = true, r.Step
+		}
+	}
+	for _, r := range out.H.Recs {
+		if r.Kind == "rx" && r.C == 0 && r.Pkt.Type == mqttc.PUBLISH {
+			if resumed && r.Step > resumeStep {
+				gotAfter[string(r.Pkt.Payload)] = true
+			} else {
+				gotBefore[string(r.Pkt.Payload)] = true
+			}
+		}
+	}
+	if resumed && out.LoopErr == nil {
+		for _, o := range out.H.Ops {
+			if o.Op.K != "publish" || o.Ack == nil || o.Ack.Code >= 0x80 {
+				continue
+			}
+			pl := o.Op.Payload
+			if !gotAfter[pl] && !droppedPl[pl] {
+				how := "was never given to it"
+				if gotBefore[pl] {
+					how = "had been sent to it before the restart, was never acknowledged, and was not retransmitted when it came back"
+				}
+				vs = append(vs, viol("C14", "installed", "restored-session-silent-drop", "message %q for the restored session \"keeper\" %s, and no OnMsgDropped hook ever reported it (max_queued_messages %d)", pl, how, p.Broker.MaxQueued))
+			}
+		}
+	}
 	for _, n := range order {
 		if expose[n+"/OnMsgDropped"] && calls[n] != drops {
 			vs = append(vs, viol("C14", "installed", "restored-session-OnMsgDropped", "after a restart %d messages were dropped from the queue of the restored session \"keeper\" (seen by the broker's own OnMsgDropped hook), but the OnMsgDropped wrapper of plugin %s was called %d times", drops, n, calls[n]))
